@@ -25,11 +25,13 @@ Fixpoint comp_lookup (f k : N) (Y : xcomp) : option N :=
 
 (* ------------------------------------------------------------------ deserialization: the post-pass *)
 (* function_value_value_info_mapping[fid][vname]: the LAST main-graph value_info entry whose name parses to it *)
+(* X is a relation (a name may be listed for several functions: the table says which (function, value) pairs the
+   reader associates with a composite name; with serde._parse_experimental_function_value_info_name it has at most
+   one entry per name, always for the overload "") *)
+Definition x_has (X : xparse) (c fid vname : N) : bool :=
+  existsb (fun e => N.eqb (fst e) c && N.eqb (fst (snd e)) fid && N.eqb (snd (snd e)) vname) X.
 Definition exp_lookup (X : xparse) (fid vname : N) (vis : list vinfo) : option vinfo :=
-  fold_left (fun acc i => match lookup (vi_name i) X with
-                          | Some (f, v) => if N.eqb f fid && N.eqb v vname then Some i else acc
-                          | None => acc
-                          end) vis None.
+  fold_left (fun acc i => if x_has X (vi_name i) fid vname then Some i else acc) vis None.
 Definition exp_apply (X : xparse) (vis : list vinfo) (fid : N) (h : heap) (v : nat) : res heap :=
   match getv h v with
   | None => Ok h
